@@ -344,6 +344,13 @@ class C02(Prop):
                 gens.append({"kind": "child", "s": cps(s), "shape": nm, "prime": True})
             gens.append({"kind": "fn", "s": cps(s), "prime": True})
             gens.append({"kind": "child", "s": cps(s), "shape": "only_block"})          # un-primed twin (C18's history check)
+        srcs = ["str_tag", "repr_tag", "repr_html", "html_escape", "html_escape_attr", "child_read_back", "script_child_read_back",
+                "style_children_list", "attr_read_back"]
+        for j, s in enumerate(gamma.HOSTILE[:24] + ["a<b & c", "<img src=x onerror=alert(1)>"]):
+            for src in srcs:
+                for nm in ("only_block", "second_after_inline", "between_text", "append", "taglist_second", "nested_lists"):
+                    if (j + len(src) + len(nm)) % 3 == 0 or j >= 24:
+                        gens.append({"kind": "roundtrip", "s": cps(s), "src": src, "shape": nm})
         for n_ in [HostileInt(3), HostileFloat(2.5)]:
             for nm in ("only_block", "only_inline", "second_after_inline", "append", "nested_lists", "insert0", "extend"):
                 gens.append({"kind": "num", "n": repr(n_), "shape": nm})
@@ -398,6 +405,48 @@ class C02(Prop):
             else:
                 seg = segment(shapes()[g["shape"]], MARK, s)
             return seg_or_flag("C02", "text", [("esc", s)], seg, g)
+        if k == "roundtrip":
+            # a plain string that CAME OUT of the library (the markup of a tag as text, an escaped string, a child or an
+            # attribute value read back) and is handed in again as a child: it is a plain string like any other
+            s = uncps(g["s"])
+            src = g["src"]
+            if src == "str_tag":
+                p_obj = str(H.tags.span(s))
+            elif src == "repr_tag":
+                p_obj = repr(H.tags.b(s, id="r"))
+            elif src == "repr_html":
+                p_obj = H.TagList(H.tags.i(s), "t")._repr_html_()
+            elif src == "html_escape":
+                p_obj = H.html_escape(s)
+            elif src == "html_escape_attr":
+                p_obj = H.html_escape(s, attr=True)
+            elif src == "child_read_back":
+                p_obj = H.tags.div(s).children[0]
+            elif src == "script_child_read_back":
+                p_obj = H.tags.script(s).children[0]
+            elif src == "style_children_list":
+                p_obj = None
+            elif src == "attr_read_back":
+                p_obj = H.tags.div(title=s).attrs["title"]
+            else:
+                raise ValueError(src)
+            if src == "style_children_list":
+                holder = H.tags.style(s)
+                out = H.tags.pre("k", H.tags.code(holder.children)).get_html_string()
+                pre, suf = "<pre>k<code>", "</code></pre>"
+                text = s
+            else:
+                if type(p_obj) is not str and not isinstance(p_obj, str):
+                    return flag("DRIFT", "context", True, False, g)
+                text = str.__str__(p_obj) if isinstance(p_obj, str) else str(p_obj)
+                out = shapes()[g["shape"]](p_obj)
+                m = shapes()[g["shape"]](MARK)
+                if m.count(MARK) != 1:
+                    return flag("DRIFT", "context", True, False, g)
+                pre, suf = m.split(MARK)
+            if not (out.startswith(pre) and out.endswith(suf) and len(out) >= len(pre) + len(suf)):
+                return flag("C02", "EveryLeafIsEmitted", True, False, g)
+            return seg_rec("C02", "text", [("esc", text)], out[len(pre): len(out) - len(suf)], g)
         if k == "num":
             n = eval(g["n"], {"inf": float("inf"), "HostileInt": HostileInt, "HostileFloat": HostileFloat})
             sh = shapes()[g["shape"]]
@@ -516,7 +565,7 @@ class C04(Prop):
                 gens.append({"kind": "html_child", "s": cps(p), "shape": nm})
                 gens.append({"kind": "repr_child", "s": cps(p), "shape": nm})
             for tagname in ("script", "style"):
-                for form in ("only", "first", "second", "third", "indented", "with_meta", "renamed", "saved"):
+                for form in ("only", "first", "second", "third", "indented", "with_meta", "renamed", "renamed_after_render", "saved"):
                     gens.append({"kind": "rawtext", "tag": tagname, "form": form, "s": cps(p)})
             for way in ("kw", "dict", "setitem", "update", "second_attr", "class_then_add", "class_then_add_pre", "style_then_add",
                         "class_then_remove", "cons"):
@@ -533,7 +582,8 @@ class C04(Prop):
             for j, nm in enumerate(cat[mod]):
                 if nm in ("script", "style"):
                     continue
-                gens.append({"kind": "concat_in", "mod": mod, "tag": nm, "a": cps("<b>"), "b": cps("a<b & c"), "order": j % 2})
+                gens.append({"kind": "concat_in", "mod": mod, "tag": nm, "a": cps("<b>"), "b": cps("a<b & c"), "order": j % 2,
+                             "escaped_operand": j % 3 == 0})
         n = 400 if tier == "quick" else 8000
         for _ in range(n):
             p = gamma.rand_text(rnd, rnd.choice([5, 30, 120]))
@@ -562,7 +612,14 @@ class C04(Prop):
         if k == "concat_in":
             f = gamma.catalogue()[g["mod"]][g["tag"]]
             a, b = uncps(g["a"]), uncps(g["b"])
+            if g.get("escaped_operand"):
+                # the plain operand is itself the result of html_escape(): still a plain string, escaped once more
+                if g["order"] == 0:
+                    b = H.html_escape(b)
+                else:
+                    a = H.html_escape(a)
             res = H.HTML(a) + b if g["order"] == 0 else a + H.HTML(b)
+            a, b = str.__str__(a) if isinstance(a, str) else a, str.__str__(b) if isinstance(b, str) else b
             pieces = [("raw", a), ("esc", b)] if g["order"] == 0 else [("esc", a), ("raw", b)]
             seg = segment(lambda x: f(x), H.HTML(MARK), res)
             seg2 = segment(lambda x: f("k", x), H.HTML(MARK), res)
@@ -601,6 +658,12 @@ class C04(Prop):
                     return H.tags.div(Tag(g["tag"], x)).get_html_string(2, "\r\n")
                 if form == "renamed":
                     t = Tag("div", x)
+                    t.name = g["tag"]
+                    return t.get_html_string()
+                if form == "renamed_after_render":
+                    t = Tag("div", x)
+                    t.get_html_string()        # a preview while it still was an ordinary element
+                    str(t)
                     t.name = g["tag"]
                     return t.get_html_string()
                 if form == "saved":
